@@ -84,7 +84,12 @@ func (g *Graph) NecessaryEdges(target NodePred) []Fact {
 			continue
 		}
 		e := n
-		if g.PathAvoiding([]*Node{g.Entry}, target, func(x *Node) bool { return x == e }) == nil {
+		// an edge that is itself a target is necessary iff no other target is reachable without it
+		to := target
+		if target(e) {
+			to = func(x *Node) bool { return x != e && target(x) }
+		}
+		if g.PathAvoiding([]*Node{g.Entry}, to, func(x *Node) bool { return x == e }) == nil {
 			t, pol := CondTerm(n)
 			t, pol = normFact(t, pol)
 			out = append(out, Fact{Cond: t, Pol: pol, Node: n})
@@ -341,20 +346,29 @@ func (p *Prog) AcceptDNF(fn *ssa.Function, ctx *Ctx, k int, depth int) []FactSet
 		v := spilledResult(ret, k)
 		S := ret.Block()
 		if phi, ok := v.(*ssa.Phi); ok && phi.Block() == S && heads != nil && heads[S] != nil {
-			head := heads[S]
-			for i, e := range phi.Edges {
-				pb := S.Preds[i]
-				var preds []*Node
-				for _, pn := range head.Pred {
-					if pn.In != nil && pn.In.Block() == pb {
-						preds = append(preds, pn)
+			var perEdge func(phi *ssa.Phi, S *ssa.BasicBlock, depth int)
+			perEdge = func(phi *ssa.Phi, S *ssa.BasicBlock, depth int) {
+				head := heads[S]
+				for i, e := range phi.Edges {
+					pb := S.Preds[i]
+					var preds []*Node
+					for _, pn := range head.Pred {
+						if pn.In != nil && pn.In.Block() == pb {
+							preds = append(preds, pn)
+						}
 					}
+					if len(preds) == 0 {
+						continue
+					}
+					// a nested boolean phi (a && (b || c)) computed in a block that only jumps here
+					if inner, ok := e.(*ssa.Phi); ok && inner.Block() == pb && depth < 4 && heads[pb] != nil && straightToJump(pb) {
+						perEdge(inner, pb, depth+1)
+						continue
+					}
+					addAlt(nodeSet(preds), e, pb)
 				}
-				if len(preds) == 0 {
-					continue
-				}
-				addAlt(nodeSet(preds), e, pb)
 			}
+			perEdge(phi, S, 0)
 			continue
 		}
 		xx := x
@@ -451,4 +465,16 @@ func fmtSscan(s string, k *int) {
 // FactsAt: facts on every path from the graph's entry to target, closed under helper expansion.
 func (g *Graph) FactsAt(target NodePred, depth int) FactSet {
 	return g.P.closeFacts(FactSet(g.NecessaryEdges(target)), depth)
+}
+
+// straightToJump: the block consists of phis / debug refs and an unconditional jump.
+func straightToJump(b *ssa.BasicBlock) bool {
+	for _, in := range b.Instrs {
+		switch in.(type) {
+		case *ssa.Phi, *ssa.DebugRef, *ssa.Jump:
+		default:
+			return false
+		}
+	}
+	return true
 }
